@@ -21,6 +21,20 @@ pub fn gen(seed: u64, tier: Tier) -> ScenarioSpec {
     spec.stream = gen::gen_stream(&mut rng, len, true);
     if rng.chance(7, 10) {
         spec.live = Some(gen_live(&mut rng, len, 15));
+        // half of the connection drops are placed inside an event chosen by kind (so that short
+        // events such as Game End are hit as often as long ones), the rest anywhere in the file
+        if let Some(l) = spec.live.as_mut() {
+            if l.drop_at.is_some() && rng.chance(1, 2) {
+                let m = recorder::build(&spec.recorder);
+                let mut kinds: Vec<u8> = m.events.iter().skip(1).map(|e| e.code).collect();
+                kinds.sort();
+                kinds.dedup();
+                let k = *rng.pick(&kinds);
+                let inst: Vec<&recorder::Ev> = m.events.iter().skip(1).filter(|e| e.code == k).collect();
+                let e = inst[rng.usize_below(inst.len())];
+                l.drop_at = Some((e.off + 1 + rng.usize_below(e.len.max(2) - 1)) as u64);
+            }
+        }
     }
     if spec.live.as_ref().map_or(true, |l| l.drop_at.is_none()) && rng.chance(1, 10) {
         // the stream fails hard in the middle of the recording: what was completed before must be intact
